@@ -3,127 +3,124 @@
 //! must visit **every** descendant thread (children, grandchildren, ...) exactly once -- it locks
 //! the descendant's context, traces its roots into the collecting `Gc` and returns the lock so that
 //! `CollectScope::scope` sweeps that descendant's heap afterwards.  A descendant that is traced
-//! (mark bits set) but not returned is never swept: its objects keep stale mark bits and its own
-//! next collection frees values that are still reachable.
+//! (mark bits set through `Thread::trace`) but not returned is never swept: its objects keep stale
+//! mark bits and its own next collection frees values that are still reachable.
 //!
-//! The tree is built from real `Thread` values allocated by the real `Gc::alloc` (a collecting
-//! thread marks thread objects through their GC headers), linked through the real `child_threads`
-//! slabs; only `global_state` is an uninitialised allocation (never read: the collecting `Gc` is not
-//! the root generation).  Stub: `Gc::get_type_info` (TypeInfo interning cache), as in the C05
-//! mark-phase harnesses.
+//! The tree is built from real hand-built `Thread` values (COMMON__vm_thread.rs) linked through the
+//! real `child_threads` slabs.  What is decided is the ENUMERATION; marking itself is decided by the
+//! mark-phase harnesses in C05__vm_gc.rs.  Stub (part of the claim): `Gc::mark` answers "already
+//! marked", which turns every `GcPtr::trace` into a no-op.  With the real `mark`, CBMC cannot tell
+//! that the (empty) stacks and root lists are empty and explores the whole `Trace` dispatch --
+//! every value variant, every `Userdata` implementation, threads recursively -- in each unwinding:
+//! measured, neither the harness nor its canary finished in 25 min.
 #![allow(unused_imports, dead_code, non_snake_case, unused_unsafe, unused_variables, unused_mut)]
 use super::*;
-use crate::gc::Move;
+use super::__verif_common__vm_thread::{fake_global, lock_context, mk_thread};
 use crate::real_std as rstd;
-use rstd::mem::{ManuallyDrop, MaybeUninit};
+use rstd::mem::ManuallyDrop;
 
 fn fmt_stub(_: rstd::fmt::Arguments<'_>) -> rstd::string::String {
     rstd::string::String::new()
 }
 
-fn fake_global() -> &'static ManuallyDrop<Arc<GlobalVmState>> {
-    let a: Arc<MaybeUninit<GlobalVmState>> = Arc::new_uninit();
-    let a: Arc<GlobalVmState> = unsafe { a.assume_init() };
-    Box::leak(Box::new(ManuallyDrop::new(a)))
+fn mark_stub<T: ?Sized>(_: &mut Gc, _: &GcPtr<T>) -> bool {
+    true
 }
 
-/// a thread object on the heap of `owner`, registered as a child of `parent` (if any)
-fn spawn(
-    owner: &mut Gc,
-    global: &Arc<GlobalVmState>,
-    parent: Option<&GcPtr<Thread>>,
-    generation: Generation,
-) -> GcPtr<Thread> {
-    let t = Thread {
-        global_state: unsafe { rstd::ptr::read(global) },
-        parent: parent.map(|p| unsafe { p.clone_unrooted() }),
-        rooted_values: RwLock::new(Vec::new()),
-        child_threads: Default::default(),
-        thread_index: usize::MAX,
-        context: Mutex::new(Context::new(Gc::new(generation, usize::MAX))),
-        interrupt: AtomicBool::new(false),
-    };
-    let r = ManuallyDrop::new(owner.alloc(Move(t)));
-    let ptr: GcPtr<Thread> = match &*r {
-        Ok(p) => unsafe { p.clone_unrooted() },
-        Err(_) => {
-            kani::assume(false);
-            unreachable!()
-        }
-    };
-    if let Some(p) = parent {
-        let mut slab = ManuallyDrop::new(p.child_threads.write().unwrap());
-        slab.insert(unsafe { ptr.clone_unrooted() });
-        unsafe { ManuallyDrop::drop(&mut slab) }; // release the lock (a guard has no heap drop glue)
-    }
-    ptr
+fn ptr(t: &'static Thread) -> GcPtr<Thread> {
+    unsafe { GcPtr::from_raw(t as *const Thread) }
 }
 
-fn same(a: &GcPtr<Thread>, b: &GcPtr<Thread>) -> bool {
-    &**a as *const Thread == &**b as *const Thread
+/// registers `child` in `parent.child_threads`, as `Thread::new_thread` does
+fn adopt(parent: &'static Thread, child: &'static Thread) {
+    let mut slab = ManuallyDrop::new(parent.child_threads.write().unwrap());
+    slab.insert(ptr(child));
+    unsafe { ManuallyDrop::drop(&mut slab) }; // release the lock
 }
 
-/// root -> a -> b, optionally a second child c of root: after `mark_child_roots` from root every
-/// descendant is locked exactly once.
-fn descendants(with_c: bool, canary: bool) {
+fn same(a: &GcPtr<Thread>, b: &'static Thread) -> bool {
+    &**a as *const Thread == b as *const Thread
+}
+
+/// root -> a -> b (-> d), optionally a second child c of root: after `mark_child_roots` from root
+/// every descendant is locked exactly once, and nothing else is.
+fn descendants(with_c: bool, with_d: bool, canary: bool) {
     let g = fake_global();
     let g0 = Generation::default();
-    // heap that owns the thread objects (in the VM: the parent thread's heap / the global heap)
-    let mut owner = ManuallyDrop::new(Gc::new(g0, usize::MAX));
-    let root = spawn(&mut owner, g, None, g0.next());
-    let a = spawn(&mut owner, g, Some(&root), g0.next().next());
-    let b = spawn(&mut owner, g, Some(&a), g0.next().next().next());
-    let c = if with_c { Some(spawn(&mut owner, g, Some(&root), g0.next().next())) } else { None };
+    let root = mk_thread(g, None, g0.next());
+    let a = mk_thread(g, Some(root), g0.next().next());
+    let b = mk_thread(g, Some(a), g0.next().next().next());
+    adopt(root, a);
+    adopt(a, b);
+    let c = if with_c {
+        let c = mk_thread(g, Some(root), g0.next().next());
+        adopt(root, c);
+        Some(c)
+    } else {
+        None
+    };
+    let d = if with_d {
+        let d = mk_thread(g, Some(b), g0.next().next().next().next());
+        adopt(b, d);
+        Some(d)
+    } else {
+        None
+    };
 
-    let mut guard = ManuallyDrop::new(root.context.lock().unwrap());
+    let mut guard = ManuallyDrop::new(lock_context(root));
     let ctx: &mut Context = &mut **guard;
     let (gc, stack) = (&mut ctx.gc, &ctx.stack);
-    let roots = Roots { vm: &root, stack };
+    let root_ptr = ptr(root);
+    let roots = Roots { vm: &root_ptr, stack };
     let locks = ManuallyDrop::new(unsafe { roots.mark_child_roots(gc) });
 
     let n = locks.len();
-    let has = |t: &GcPtr<Thread>| {
+    let has = |t: &'static Thread| {
         (n > 0 && same(&locks[0].2, t)) as usize
             + (n > 1 && same(&locks[1].2, t)) as usize
             + (n > 2 && same(&locks[2].2, t)) as usize
             + (n > 3 && same(&locks[3].2, t)) as usize
+            + (n > 4 && same(&locks[4].2, t)) as usize
     };
-    assert!(has(&a) == 1, "the child is locked (and will be swept) exactly once");
-    assert!(has(&b) == 1, "the grandchild is locked (and will be swept) exactly once");
-    if let Some(c) = &c {
+    assert!(has(a) == 1, "the child is locked (and will be swept) exactly once");
+    assert!(has(b) == 1, "the grandchild is locked (and will be swept) exactly once");
+    if let Some(c) = c {
         assert!(has(c) == 1, "the second child is locked exactly once");
     }
-    assert!(has(&root) == 0, "the collecting thread itself is not re-locked");
-    assert!(n == if with_c { 3 } else { 2 }, "nothing else is locked");
+    if let Some(d) = d {
+        assert!(has(d) == 1, "the great-grandchild is locked exactly once");
+    }
+    assert!(has(root) == 0, "the collecting thread itself is not re-locked");
+    assert!(n == 2 + with_c as usize + with_d as usize, "nothing else is locked");
     kani::cover!(true, "descendants enumerated");
     if canary {
         assert!(false, "canary");
     }
 }
 
-//@ tier=thorough cap=3000 mem=20 funcs=Roots::mark_child_roots,Roots::trace,Thread::trace_fields_except_stack,Thread::trace,Gc::mark bound=chain_root_child_grandchild
+//@ tier=quick cap=900 mem=15 funcs=Roots::mark_child_roots,Roots::trace,Thread::trace_fields_except_stack bound=chain_root_child_grandchild;Gc::mark_stubbed
 #[kani::proof]
 #[kani::unwind(5)]
 #[kani::stub(rstd::fmt::format, fmt_stub)]
-#[kani::stub(crate::gc::Gc::get_type_info, crate::gc::__verif_common__vm_gc::type_info_stub)]
+#[kani::stub(crate::gc::Gc::mark, mark_stub)]
 fn c05_child_roots_chain() {
-    descendants(false, false);
+    descendants(false, false, false);
 }
 
-//@ tier=thorough cap=3000 mem=30 funcs=Roots::mark_child_roots,Roots::trace,Thread::trace_fields_except_stack,Thread::trace,Gc::mark bound=root_with_two_children_one_grandchild
+//@ tier=thorough cap=3000 mem=20 funcs=Roots::mark_child_roots,Roots::trace,Thread::trace_fields_except_stack bound=root_with_two_children_grandchild_and_great_grandchild;Gc::mark_stubbed
 #[kani::proof]
-#[kani::unwind(6)]
+#[kani::unwind(7)]
 #[kani::stub(rstd::fmt::format, fmt_stub)]
-#[kani::stub(crate::gc::Gc::get_type_info, crate::gc::__verif_common__vm_gc::type_info_stub)]
+#[kani::stub(crate::gc::Gc::mark, mark_stub)]
 fn c05_child_roots_tree() {
-    descendants(true, false);
+    descendants(true, true, false);
 }
 
-//@ tier=thorough cap=3000 mem=20
+//@ tier=quick cap=900 mem=15
 #[kani::proof]
 #[kani::unwind(5)]
 #[kani::stub(rstd::fmt::format, fmt_stub)]
-#[kani::stub(crate::gc::Gc::get_type_info, crate::gc::__verif_common__vm_gc::type_info_stub)]
+#[kani::stub(crate::gc::Gc::mark, mark_stub)]
 fn c05_child_roots_canary() {
-    descendants(false, true);
+    descendants(false, false, true);
 }
